@@ -6,16 +6,28 @@ cd $WT || exit 9
 git checkout -q -- . ; rm -rf tests examples
 export CARGO_NET_OFFLINE=true
 FLAGS=""; FEAT=""
+PROF=""
 case "$ID/$N" in
   C02/2) FLAGS="-C target-feature=+avx2";;
   C16/2) FLAGS="-C target-feature=+avx";;
-  C17/*) FEAT="--features force-32bits";;
+  C17/1|C17/2|C17/4) FEAT="--features force-32bits";;
   C20/1) FEAT="--features verif-hooks";;
+  C01/3) FLAGS="-C target-feature=+avx2";;
+  C01/4) PROF="--release";;
+  C03/3) FLAGS="-C target-feature=+ssse3";;
+  C06/4) FLAGS="-C target-feature=-sse2";;
+  C07/4) PROF="--release";;
+  C09/3) PROF="--release";;
+  C16/3) FLAGS="-C target-feature=+avx"; PROF="--release";;
+  C16/4) FEAT="--features verif-hooks";;
+  C20/3) PROF="--release";;
+  C20/4) FLAGS="-C target-feature=+avx";;
+  C12/4|C13/3|C13/4) FEAT="--features force-32bits";;
 esac
 demo() {
   if [ -f $M/demo.sh ]; then sh $M/demo.sh >/dev/null 2>&1; return $?; fi
   mkdir -p tests; cp $M/demo_test.rs tests/demo_test.rs
-  RUSTFLAGS="$FLAGS" cargo test --offline $FEAT --test demo_test >/dev/null 2>&1; rc=$?
+  RUSTFLAGS="$FLAGS" cargo test --offline $PROF $FEAT --test demo_test >/dev/null 2>&1; rc=$?
   rm -rf tests; return $rc
 }
 demo; clean_rc=$?
@@ -26,4 +38,4 @@ tests=$(cargo test --offline 2>&1 | grep "test result" | head -1 | sed 's/.*ok. 
 demo; mut_rc=$?
 git checkout -q -- . ; rm -rf tests examples
 ok=no; [ $clean_rc -eq 0 ] && [ $mut_rc -ne 0 ] && [ $b1 -eq 0 ] && [ $b2 -eq 0 ] && [ "$tests" = "63p0f" ] && ok=yes
-echo "$ID/$N RESULT confirmed=$ok demo_clean_rc=$clean_rc demo_mutant_rc=$mut_rc build=$b1 build_hooks=$b2 tests=$tests flags='$FLAGS $FEAT'"
+echo "$ID/$N RESULT confirmed=$ok demo_clean_rc=$clean_rc demo_mutant_rc=$mut_rc build=$b1 build_hooks=$b2 tests=$tests flags='$FLAGS $FEAT $PROF'"
